@@ -11,10 +11,12 @@
  * scenario (space separated key=value):
  *   inj=<k><k>..      one digit per injector: 0 good/local 1 good/remote 2 envelope ends inside an address (die_read,
  *                     cleanup of intd+mess) 3 wrong record letter (exit 91, leaves S3) 4 message read error (cleanup of mess)
- *                     5 good, two recipients (local+remote)
+ *                     5 good, two recipients (local+remote) 6 good, sender #@[] (a double bounce: its own bounce is discarded)
+ *                     7 good, empty sender (a bounce: its own bounce goes to the postmaster)
  *   pre=<k>:<hours>,..  leftovers present at start: k = 2 (mess) 3 (mess+intd) 4 (queued: mess+intd+todo)
  *                     5 (preprocessed: mess+info+local) p (pid file) q (pid file still linked to mess); age in hours
  *   out=<letters>     delivery outcomes K Z D, cyclic
+ *   bf=<digits>       per bounce injection, cyclic: 0 succeeds, 1 fails (the bounce record stays and is retried)
  *   stall=<proc>:<call>:<hours>   injector <proc> (2..4) waits before its <call>-th system call until <hours> have passed
  *   kill=<proc>:<call>            injector killed before its <call>-th call
  *   fault=<proc>:<call>:<errno>   single failing call (any process)
@@ -43,7 +45,7 @@ SIM_INSTANCE(qt)
 typedef struct {
   char inj[8]; int ninj;
   int npre; struct { char kind; int hours; } pre[8];
-  char out[32];
+  char out[32]; char bf[16];
   int sproc, scall; long ssecs;
   int kproc, kcall;
   int fproc, fcall, ferr;
@@ -92,7 +94,8 @@ void qmail_fail(struct qmail *qq) { qq->flagerr = 1; }
 void qmail_put(struct qmail *qq, char *s, size_t len) {}
 void qmail_from(struct qmail *qq, char *s) {}
 void qmail_to(struct qmail *qq, char *s) {}
-char *qmail_close(struct qmail *qq) { return qq->flagerr ? "Zfailed" : ""; }
+static int nbounce;
+char *qmail_close(struct qmail *qq) { int f = S.bf[0] ? S.bf[nbounce % strlen(S.bf)] == '1' : 0; nbounce++; return (qq->flagerr || f) ? "Zfailed" : ""; }
 
 /* scripted spawners: every delivery command is answered at the next select */
 static void answer_commands(void) {
@@ -137,6 +140,7 @@ static int d2_wait(simproc *p) { return P[0].used && !P[0].finished && P[0].ncal
 
 /* ---- world ---- */
 static void ctl(const char *name, const char *val) { char p[120]; snprintf(p, sizeof p, "/var/qmail/control/%s", name); sim_mkfile(p, val, strlen(val), 0, 0644); }
+static const unsigned char ENV_DBL[] = "F#@[]\0Tu1@h.example\0Tr1@far.example\0", ENV_EMPTY[] = "F\0Tu1@h.example\0";
 static const unsigned char ENV_LOCAL[] = "Fs@src.example\0Tu1@h.example\0", ENV_REMOTE[] = "Fs@src.example\0Tr1@far.example\0",
   ENV_TWO[] = "Fs@src.example\0Tu1@h.example\0Tr1@far.example\0", ENV_TRUNC[] = "Fs@src.example\0Tu1@h.exa", ENV_BADLETTER[] = "Fs@src.example\0Xu1@h.example\0";
 static void pre_populate(void) {
@@ -217,6 +221,7 @@ static void add_injector(int slot, char kind) {
   const unsigned char *e = ENV_LOCAL; size_t el = sizeof ENV_LOCAL;
   if (kind == '1') { e = ENV_REMOTE; el = sizeof ENV_REMOTE; } else if (kind == '5') { e = ENV_TWO; el = sizeof ENV_TWO; }
   else if (kind == '2') { e = ENV_TRUNC; el = sizeof ENV_TRUNC - 1; } else if (kind == '3') { e = ENV_BADLETTER; el = sizeof ENV_BADLETTER; }
+  else if (kind == '6') { e = ENV_DBL; el = sizeof ENV_DBL; } else if (kind == '7') { e = ENV_EMPTY; el = sizeof ENV_EMPTY; }
   sim_fd_source(q, 1, e, el, 0);
   sim_fd_sink(q, 2);
   xlog("X injector proc=%d kind=%c\n", 2 + slot, kind);
@@ -263,7 +268,7 @@ static void run_incarnation(void) {
 static void run_scenario(void) {
   fprintf(h_out, "CASE %s\n", S.text);
   if (getenv("C02DBG")) fprintf(stderr, "CASE %s\n", S.text);
-  incarnation = 0; nattempt = 0; rng = S.sched * 2654435761ull + 88172645463325252ull;
+  incarnation = 0; nattempt = 0; nbounce = 0; rng = S.sched * 2654435761ull + 88172645463325252ull;
   world_init();
   flush_trace();
   dump("init");
@@ -286,6 +291,7 @@ static void parse_scenario(const char *line) {
     char *v = strchr(t, '='); if (!v) continue; *v++ = 0;
     if (!strcmp(t, "inj")) { snprintf(S.inj, sizeof S.inj, "%s", !strcmp(v, "-") ? "" : v); S.ninj = strlen(S.inj); if (S.ninj > 3) S.ninj = 3; }
     else if (!strcmp(t, "out")) snprintf(S.out, sizeof S.out, "%s", v);
+    else if (!strcmp(t, "bf")) snprintf(S.bf, sizeof S.bf, "%s", v);
     else if (!strcmp(t, "stall")) { int h = 0; sscanf(v, "%d:%d:%d", &S.sproc, &S.scall, &h); S.ssecs = 3600L * h; }
     else if (!strcmp(t, "kill")) sscanf(v, "%d:%d", &S.kproc, &S.kcall);
     else if (!strcmp(t, "fault")) sscanf(v, "%d:%d:%d", &S.fproc, &S.fcall, &S.ferr);
@@ -302,7 +308,7 @@ static void gen_scenario(char *o, size_t osz, int r) {
   size_t n = 0;
   int ninj = 1 + h_below(3);
   n += snprintf(o + n, osz - n, "inj=");
-  for (int i = 0; i < ninj; i++) n += snprintf(o + n, osz - n, "%c", "0011223455"[h_below(10)]);
+  for (int i = 0; i < ninj; i++) n += snprintf(o + n, osz - n, "%c", "001122345567"[h_below(12)]);
   if (r % 12 == 11) {       /* the daemon was down for days: a backlog of old queued and preprocessed messages, some leftovers among them */
     n += snprintf(o + n, osz - n, " pre=");
     int np = 3 + h_below(4);
@@ -316,6 +322,7 @@ static void gen_scenario(char *o, size_t osz, int r) {
   if (h_below(2)) n += snprintf(o + n, osz - n, " skip=%d", (int)h_below(23));
   static const char *outs[] = { "K", "KZ", "D", "KD", "ZZK", "DK", "Z" };
   n += snprintf(o + n, osz - n, " out=%s", outs[h_below(7)]);
+  if (h_below(4) == 0) n += snprintf(o + n, osz - n, " bf=%s", (const char *[]){ "1", "10", "110", "01" }[h_below(4)]);
   switch (r % 6) {
     case 1: n += snprintf(o + n, osz - n, " stall=%d:%d:%d", 2 + (int)h_below(ninj), 20 + (int)h_below(45), (int[]){ 1, 20, 30, 37, 40, 60 }[h_below(6)]); break;
     case 2: n += snprintf(o + n, osz - n, " kill=%d:%d", 2 + (int)h_below(ninj), 20 + (int)h_below(45)); break;
